@@ -2,7 +2,7 @@
 the current _speedups.c, pure-Python class from the current core.py, Lean model through gdrv)
 and the algebraic laws evaluated on the real classes."""
 import json
-from harness import proto, stage
+from harness import proto, stage, c18_wide
 from harness.framework import Result, pmap
 from harness.proto import Atom, B
 
@@ -507,6 +507,10 @@ def run(ctx):
     res = Result()
     for r in pmap('harness.props.c18', 'shard', args):
         res.merge(r)
+    # wave 4: the wider algebra (harness/c18_wide.py), one request per implementation
+    wide = [(ctx.seed, i, ctx.n(700, 14000), ctx.n(3, 12)) for i in range(nsh)]
+    for r in pmap('harness.c18_wide', 'shard', wide):
+        res.merge(r)
     L = ctx.n(4, 6)
     for r in pmap('harness.props.c18', 'exhaustive_shard', [(i, nsh, L) for i in range(nsh)]):
         res.merge(r)
@@ -522,7 +526,7 @@ def search(ctx, res, broken):
     M, _ = impls()
     found = []
     for d in res.disagreements[:200]:
-        f = oracle_case(d['case'], M)
+        f = c18_wide.oracle(d['case']) if d['case'].get('kind') == 'w' else oracle_case(d['case'], M)
         if f:
             found.append(f)
     if found:
@@ -530,8 +534,12 @@ def search(ctx, res, broken):
     args = [(ctx.seed + 1000 + i, i, 6000, (0, 0)) for i in range(16)]
     for r in pmap('harness.props.c18', 'shard', args):
         found.extend(r.failures)
+    for r in pmap('harness.c18_wide', 'shard', [(ctx.seed + 1000 + i, i, 6000, 4) for i in range(16)]):
+        found.extend(r.failures)
     return found
 
 
 def replay(ctx, case):
+    if case.get('kind') == 'w':
+        return c18_wide.oracle(case)
     return oracle_case(case)
